@@ -15,6 +15,7 @@ import GluonModel.Comments
 import GluonModel.Proofs.Comments
 import GluonModel.PrettyDoc
 import GluonModel.Proofs.PrettyDoc
+import GluonModel.KindSyntax
 
 namespace GluonModel.Props.C10
 open GluonModel.Comments
@@ -245,5 +246,59 @@ example :
       render 2 d = some "f\nx".toList := by decide
 
 end Layout
+
+/-! ### Kind annotations of type-alias parameters: printer (format/src/pretty_print.rs:416-438,
+    `pretty_kind` :1119-1141) against the grammar (parser/src/grammar.lalrpop:262-299).
+    Model and lemmas: `GluonModel.KindSyntax`. -/
+namespace KindFmt
+open GluonModel.KindSyntax
+
+/-- parse ∘ print = id on kinds: the tokens `pretty_kind(Top, k)` prints, followed by anything
+    that does not start with `->`, are parsed by `Kind` back to exactly `k`, leaving the rest —
+    for every fuel of at least (number of printed tokens + 1). -/
+theorem kind_print_parse_roundtrip (k : Kind) (rest : List Tok) (h : rest.head? ≠ some .arrow)
+    (n : Nat) (hn : (k.toks false).length + 1 ≤ n) :
+    parseKind n (k.toks false ++ rest) = some (k, rest) :=
+  parseKind_toks k rest h n hn
+
+-- `(Type -> Type) -> Row`, followed by the `)` of the parameter
+example : parseKind 8 ((Kind.fn (.fn .type .type) .row).toks false ++ [.rp])
+    = some (.fn (.fn .type .type) .row, [.rp]) := by decide
+
+/-- The printer/parser pair preserves every kind annotation except an explicit `Type`. -/
+theorem kind_param_roundtrip_partial (k : Kind) (h : k ≠ .type) :
+    parseParam (paramToks k) = some (k, []) :=
+  parseParam_paramToks k h
+
+example : paramToks (.fn .type (.fn (.fn .row .hole) .type))
+      = [.lp, .ident, .colon, .ty, .arrow, .lp, .row, .arrow, .hole, .rp, .arrow, .ty, .rp] ∧
+    paramText (.fn .type (.fn (.fn .row .hole) .type)) = "(p : Type -> (Row -> _) -> Type)".toList ∧
+    render (paramToks (.fn .type (.fn (.fn .row .hole) .type)))
+      = paramText (.fn .type (.fn (.fn .row .hole) .type)) := by decide
+
+/-- The text of a parameter (`paramText`, what the driver compares with the real formatter) is
+    the flat layout of exactly the tokens the round-trip theorems are about: no space after `(`
+    or before `)`, one space between any other two tokens. -/
+theorem kind_param_text_is_tokens (k : Kind) : render (paramToks k) = paramText k :=
+  render_paramToks k
+
+example : paramText (.fn (.fn .type .type) .row) = "(p : (Type -> Type) -> Row)".toList ∧
+    paramText (.fn .type .type) = "(p : Type -> Type)".toList := by decide
+
+/-- The hypothesis `k ≠ Type` is needed: `(a : Type)` is printed as `a`, which the parser reads
+    with kind `Hole` (format/src/pretty_print.rs:421-424 drops the annotation for `Type` as well
+    as for `Hole`).  A defect of the unchanged formatter. -/
+theorem kind_param_roundtrip_fails : parseParam (paramToks .type) = some (.hole, []) := rfl
+
+example : paramText .type = "p".toList ∧ paramText .hole = "p".toList := by decide
+
+/-- The parentheses `pretty_kind` inserts are enough: different kinds print differently. -/
+theorem kind_paren_needed (k₁ k₂ : Kind) (h : k₁.toks false = k₂.toks false) : k₁ = k₂ :=
+  toks_false_injective h
+
+example : (Kind.fn (.fn .type .row) .hole).toks false = [.lp, .ty, .arrow, .row, .rp, .arrow, .hole] ∧
+    (Kind.fn .type (.fn .row .hole)).toks false = [.ty, .arrow, .row, .arrow, .hole] := by decide
+
+end KindFmt
 
 end GluonModel.Props.C10
